@@ -70,6 +70,11 @@ BASIC = {
             P("v", "Any", "any"),
             P("w", "Any", "any", default="None", compare=False),
         ]),
+        # two string properties: the digest's own separator can be spelled inside the first one
+        dict(name="Two", base="ASTNode", fields=[
+            P("x", "str", "sepx"),
+            P("y", "str", "sepy"),
+        ]),
         # children that are falsy in a boolean context
         dict(name="FLeaf", base="Leaf", fields=[], body="def __len__(self):\n        return 0\n"),
         dict(name="FUnary", base="Unary", fields=[], body="def __bool__(self):\n        return False\n"),
